@@ -14,7 +14,7 @@ from props import c01_numtok as NUMTOK
 MODELLED = ["afa", "a2m", "clustal", "clustallike", "psiblast", "phylip", "phylips", "selex", "stockholm", "pfam"]                         # formats whose reader exists in the Lean model (text + digital, declared format)
 MODELLED_ABC = ["text", "amino", "dna", "rna"]
 ALL_FORMATS = G.FORMATS
-UNMODELLED = [f for f in ALL_FORMATS if f not in MODELLED]    # format autodetection and alphabet guessing are modelled (Msafile/Guess.lean); not reachable from the harness: the ".gz" suffix branch of esl_msafile_GuessFileFormat (esl_buffer_Open pipes such files through gzip)
+UNMODELLED = [f for f in ALL_FORMATS if f not in MODELLED]    # format autodetection and alphabet guessing are modelled (Msafile/Guess.lean); the ".gz" suffix branch of esl_msafile_GuessFileFormat is driven by src=named
 
 LEAK_KEY = None
 NUL_ANNOTATION_KEY = "C01:annotation:embedded-nul"
@@ -47,7 +47,7 @@ class C01(Prop):
         "selexConfigs_valid", "selex_total", "selex_no_fault", "selex_eformat_has_message", "selex_ok_wellformed", "selex_read_all_total",
         "stoConfigs_valid", "stockholm_total", "stockholm_total_rest", "stockholm_no_fault", "stockholm_eformat_has_message", "stockholm_ok_wellformed",
         "sto_growth_keeps_lens", "sto_growth_keeps_ogr_slot", "sto_expandseq_ogr",
-        "open_by_name_total", "stockholmV_erase", "stockholmV_total", "stockholmV_total_rest", "stockholmV_ok_wellformed", "opened_readV_good",
+        "open_by_name_total", "open_gz_name", "suffix_gz_one_level", "stockholmV_erase", "stockholmV_total", "stockholmV_total_rest", "stockholmV_ok_wellformed", "opened_readV_good",
         "cfgOf_valid", "opened_cfg_valid", "opened_read_good", "guess_no_fault", "open_total", "open_total_fmtd", "auto_total", "open_status_documented")] + [
         "EaselModel.Msafile.openModelW_zero", "EaselModel.Msafile.openModelW_auto", "EaselModel.Msafile.openModelW_no_fault",
         "EaselModel.Msafile.guessFormat_no_fault", "EaselModel.Msafile.guessAlphabet_no_fault", "EaselModel.Msafile.checkSeqUnknown_no_fault",
@@ -59,7 +59,7 @@ class C01(Prop):
         "EaselModel.Msafile.expandAll_inv", "EaselModel.Msafile.pdExpandSeq_sqlen", "EaselModel.Msafile.pdExpandSeq_perLen", "EaselModel.Msafile.pdExpandSeq_ogrLen",
         "EaselModel.Msafile.pdExpandSeq_rest", "EaselModel.Msafile.msaExpand_rows", "EaselModel.Msafile.msaExpand_gr",
         "EaselModel.Msafile.stockholmReadV_erase", "EaselModel.Msafile.patchMsa_wellFormed", "EaselModel.Msafile.stockholmReadV_good",
-        "EaselModel.Msafile.openByName_enotfound_msg", "EaselModel.Msafile.openByName_enotfound_iff", "EaselModel.Msafile.stockholmReadV_ok", "EaselModel.Msafile.stockholmReadV_rest", "EaselModel.Msafile.Opened.readV_good"]
+        "EaselModel.Msafile.fmtBySuffix_gz", "EaselModel.Msafile.fmtBySuffix_gz_same", "EaselModel.Msafile.openModelW_name", "EaselModel.Msafile.openByName_enotfound_msg", "EaselModel.Msafile.openByName_enotfound_iff", "EaselModel.Msafile.stockholmReadV_ok", "EaselModel.Msafile.stockholmReadV_rest", "EaselModel.Msafile.Opened.readV_good"]
     claimed = True
     technique = ("Lean 4 proof (totality, fault-freedom and well-formedness of an executable line-by-line model of the alignment readers, bounds-checked "
                  "auxiliary arrays) + exact differential correspondence of the model with the ASan/UBSan/LSan-built readers + property monitors on all ten formats")
@@ -95,7 +95,7 @@ class C01(Prop):
                   "printf forms, midpoints of adjacent doubles/floats, subnormal/overflow thresholds, 127..129-byte tokens, hex constants, junk after a valid prefix).")
     level_note = ("Format autodetection and alphabet guessing are in the model and in the theorems (AUTODETECT section of Props/C01.lean); the 0.02*n double comparisons of esl_abc_GuessAlphabet are "
                   "modelled as exact integer tests 50*d <= n (equal to the binary64 comparison for every n < 2^50; confirmed on every generated case); the '.gz' suffix branch of "
-                  "esl_msafile_GuessFileFormat is modelled but cannot be driven through the harness (esl_buffer_Open pipes such files through gzip). Trusted: Lean kernel + propext/Classical.choice/Quot.sound; fidelity of the hand models is checked (not proved) by the "
+                  "esl_msafile_GuessFileFormat is modelled, proved transparent one level deep (open_gz_name) and driven on the real code by `src=named` (esl_buffer_OpenFile + esl_msafile_OpenBuffer on a file of that name; esl_buffer_Open itself would pipe it through gzip). Trusted: Lean kernel + propext/Classical.choice/Quot.sound; fidelity of the hand models is checked (not proved) by the "
                   "differential run; ESL_BUFFER's refinement to the abstract line reader is property C05 (SELEX line pointers are abstracted to line contents); keyhash "
                   "lookups are abstracted to first-index-by-name (C19); allocation never fails; leaks are outside the model (LeakSanitizer per operation). "
                   "No known finding: C01:selex-stream:stable-anchor-uaf was repaired by 188d0b6 and C01:check-selex:plain-anchor-uaf (msafile_check_selex kept <firstname> under a plain anchor; found when the "
@@ -335,6 +335,27 @@ class C01(Prop):
             ops = ["openerr what=envfile fmt=%s abc=%s sfx=%s hex=%s" % (f, abc, sfx, G.hx(data)), self._op(data, f, abc, "allfile", 0, sfx)]
             stats["kinds"]["openerr"] = stats["kinds"].get("openerr", 0) + 1
             out.append({"name": "openenv%d" % len(out), "ops": ops, "sfx": sfx})
+        # 3k. the file name the open path sees (`src=named tail=`: esl_buffer_OpenFile + esl_msafile_OpenBuffer on a file called h_msafile_<pid><tail>):
+        #     the ".gz" branch of the suffix rule (one level only), suffixes of every table entry with and without ".gz", case, empty, dots
+        tails = [".gz", "..gz", ".gz.gz", "gz", ".GZ", ".gzip", ".", "", ".sto.gz.gz", ".sto.GZ", ".STO.gz", ".sto.gz.", ".x.sto.gz", ".sto.x.gz", ".stogz", ".sto..gz"]
+        sfxs = ["sto", "sth", "stk", "afa", "afasta", "pfam", "a2m", "slx", "selex", "pb", "ph", "phy", "phyi", "phys", "txt", "fa", "st", "stoo"]
+        for i in range(110 if quick else 1500):
+            d, b = rng.choice(pool)
+            data = b if rng.random() < 0.75 else G.mutate(rng, b, allfiles)
+            # a suffix that DECIDES the format for this content (pfam on Stockholm text, a2m on aligned FASTA, phys on PHYLIP, pb on SELEX-like text ...)
+            decisive = {"stockholm": ["pfam"], "afa": ["a2m"], "a2m": ["a2m", "afa"], "phylip": ["phys", "ph"], "phylips": ["phys", "phyi"],
+                        "selex": ["pb", "slx"], "psiblast": ["pb", "slx"], "clustal": ["slx"]}.get(d, ["pfam"])
+            r = rng.random()
+            if r < 0.2: tail = rng.choice(tails)
+            else:
+                tail = "." + (rng.choice(decisive) if r < 0.75 else rng.choice(sfxs)) + rng.choice([".gz", ".gz", "", ".gz.gz", ".gz.gz", ".GZ", ".gz.", ".x.gz"])
+            if rng.random() < 0.25: tail = rng.choice([".pfam", ".a2m", ".d.sto", ".gz", ".slx.gz"]) + "/" + rng.choice(["f", "f.gz", "f.txt", "f" + tail])   # a '.' in a directory name is no suffix
+            abc = rng.choice(["text", "guess", "amino"])
+            op = lambda t: "parse fmt=auto abc=%s src=named ps=0 tail=%s hex=%s" % (abc, G.hx(t.encode()), G.hx(data))
+            ops = [op(tail)]
+            if tail.endswith(".gz") and rng.random() < 0.5: ops.append(op(tail[:-3]))       # open_gz_name: the same answer (unless the name ends in .gz.gz)
+            stats["kinds"]["named"] = stats["kinds"].get("named", 0) + 1
+            out.append({"name": "named%d" % len(out), "ops": ops, "sfx": tail})
         # 4. raw bytes
         for _ in range(n_raw):
             emit("raw", G.raw_bytes(rng), rng.choice(ALL_FORMATS + [None]))
